@@ -134,11 +134,13 @@ func runHistory(tp *simrt.Tape, task int, nops int, fail func(class, msg string)
 	}
 	newSeq := func() string {
 		var n int
-		switch tp.Choose(6) {
+		switch tp.Choose(7) {
 		case 0:
 			n = 1
 		case 1:
 			n = 2
+		case 6:
+			n = 0 // an empty sequence is a legal object too
 		case 2:
 			n = 1000 + tp.Choose(120) // crosses the pool's 1024-byte class
 		default:
@@ -159,9 +161,10 @@ func runHistory(tp *simrt.Tape, task int, nops int, fail func(class, msg string)
 		return alive[tp.Choose(len(alive))]
 	}
 	add := func(obj *obiseq.BioSequence, v mval, how string) *handle {
-		// rc(rc(x)) may legitimately hand back an existing object: then it is the same handle
+		// a derived object must be a new object: handing back a live one is shared state
 		for _, h := range hs {
 			if h.alive && h.obj == obj {
+				fail("C07/derived-object-is-its-source", fmt.Sprintf("task %d: %s returned the live object %s itself instead of a new sequence", task, how, h.name))
 				return h
 			}
 		}
@@ -215,6 +218,9 @@ func runHistory(tp *simrt.Tape, task int, nops int, fail func(class, msg string)
 			desc = "Copy(" + h.name + ")"
 		case 2, 3: // subsequence
 			L := len(h.val.seq)
+			if L == 0 {
+				continue // no window in an empty sequence
+			}
 			from := tp.Choose(L)
 			to := from + 1 + tp.Choose(L-from)
 			circular := false
@@ -272,25 +278,14 @@ func runHistory(tp *simrt.Tape, task int, nops int, fail func(class, msg string)
 					v.pmm[revPmmKey(k)] = len(h.val.seq) - p + 1
 				}
 			}
-			if inplace && r == h.obj {
+			if inplace {
+				if r != h.obj {
+					fail("C07/inplace-revcomp-returned-another-object", fmt.Sprintf("task %d: %s did not return the sequence it was applied to", task, desc))
+					return
+				}
 				h.val = v
 			} else {
-				known := false
-				for _, o := range hs {
-					if o.alive && o.obj == r {
-						known = true
-						// only what the statement names: nucleotides, qualities, position-bearing annotations
-						ov, vv := o.val, v
-						ov.tag, vv.tag, ov.nest, vv.nest = "", "", nil, nil
-						if ov.String() != vv.String() {
-							fail("C07/revcomp-cache-stale", fmt.Sprintf("task %d: %s returned the cached object %s whose content is\n  %s\nnot the reverse complement\n  %s", task, desc, o.name, clip(o.val.String(), 300), clip(v.String(), 300)))
-							return
-						}
-					}
-				}
-				if !known {
-					add(r, v, "rc of "+h.name)
-				}
+				add(r, v, "rc of "+h.name)
 			}
 		case 6: // mutate sequence
 			s := newSeq()
